@@ -448,6 +448,19 @@ def _replay_block_update(rec, args, res, drv, k, tags):
             k.append(f"update_random_variable_records -> OmegaRecord.update(BLOCK {str(rec.root)!r}, fix={newfix}): model {str(m)[:500]} code {str(want)[:500]}")
 
 
+def _param_records(code):
+    """texts of the $THETA / $OMEGA / $SIGMA records of a control stream, in order"""
+    recs, cur = [], None
+    for line in code.splitlines(keepends=True):
+        if line.startswith("$"):
+            cur = [line] if line[:4].upper() in ("$THE", "$OME", "$SIG") else None
+            if cur is not None:
+                recs.append(cur)
+        elif cur is not None:
+            cur.append(line)
+    return ["".join(r) for r in recs]
+
+
 def theta_item_table(code):
     """[(facts, n)] for every theta item of every $THETA record of a control stream, in order"""
     from harness.corr import c04
@@ -486,6 +499,27 @@ def run_api_case(case, drv):
         for w in ("BLO", "SD", "STA", "COR", "FIX", ")x", "DIA"):
             if w in t.upper().replace(")X", ")x"):
                 tags.append("layout:rv-" + w.strip(")"))
+    # ---- no-op write: an unmodified model keeps the spelling of every parameter record
+    try:
+        code_noop = m0.update_source().code
+    except Exception as e:
+        code_noop = None
+        mon.append({"cls": "noop-update-internal-error", "what": f"update_source() of the unmodified model raised {type(e).__name__}: {str(e)[:150]}"})
+    if code_noop is not None:
+        a, b = _param_records(code0), _param_records(code_noop)
+        tags.append("op:noop-write")
+        if a != b:
+            for ra, rb in zip(a, b):
+                if ra != rb:
+                    up = ra.upper()
+                    if "BLO" in up and "COR" in up:
+                        cls = "omega-block-corr-noop-respelled"
+                    else:
+                        cls = "noop-record-rewritten"
+                    mon.append({"cls": cls, "what": f"update_source() of the unmodified model rewrites {ra!r} as {rb!r}"})
+                    break
+            else:
+                mon.append({"cls": "noop-record-rewritten", "what": f"update_source() of the unmodified model changes the number of parameter records: {a} -> {b}"})
     m = m0
     history = []
     _LOG = []
